@@ -157,6 +157,7 @@ class var_induct(Tactic):
         inst = matcher.first_order_match(th_args[0], var)
         inst[f.name] = P
         As, _ = th.prop.subst_norm(inst).strip_implies()
+        As = As[:len(th.assums)]
         pts = [ProofTerm.sorry(Thm(A, goal.hyps)) for A in As]
         return ProofTerm("apply_induct", (th_name, var, goal.prop), pts)
 
